@@ -441,7 +441,8 @@ func e4Run(c e4Case) (res *e4Result) {
 		switch s.Kind {
 		case "pub":
 			q.Tag = fmt.Sprintf("m%d", s.Idx)
-			err = cli.Publish(ctx, &Message{Topic: s.Topic, QoS: QoS(s.QoS), Retain: s.Retain, Payload: e4Payload(s.Idx, s.Extra), ID: uint16(s.ID)})
+			// (every third message has Dup=true left over, as a forwarded or re-used Message would)
+			err = cli.Publish(ctx, &Message{Topic: s.Topic, QoS: QoS(s.QoS), Retain: s.Retain, Payload: e4Payload(s.Idx, s.Extra), ID: uint16(s.ID), Dup: s.Idx%3 == 0})
 		case "sub":
 			q.Tag = fmt.Sprintf("u/%d", s.Idx)
 			subs := []Subscription{{Topic: q.Tag, QoS: QoS(s.QoS)}}
